@@ -70,8 +70,16 @@ def main():
         tests = [t for t in tests if os.path.exists(os.path.join(scratch, t.split('::')[0]))]
         if tests and not a.skip_tests:
             t0 = time.time()
-            rc, out = run([PY, '-m', 'pytest', '-q', '-x', '-p', 'no:cacheprovider', '--timeout=1800'] + tests, scratch, env, 5400)
-            res['repo_tests'] = {'files': tests, 'exit': rc, 'tail': out[-300:], 'wall_s': round(time.time() - t0)}
+            # tests that BASELINE.json lists as always_fail / flaky fail on the unchanged tree too: they cannot tell whether a change
+            # 'passes the existing tests' and are deselected (the stable 230 are what counts)
+            B = json.load(open('/root/.vp/BASELINE.json'))
+            unstable = sorted(set(B.get('always_fail', [])) | set(B.get('flaky', [])))
+            desel = []
+            for n in unstable:
+                mod, fn = n.split('::')
+                desel += ['--deselect', mod.replace('.', '/') + '.py::' + fn]
+            rc, out = run([PY, '-m', 'pytest', '-q', '-x', '-p', 'no:cacheprovider', '--timeout=1800'] + desel + tests, scratch, env, 5400)
+            res['repo_tests'] = {'files': tests, 'exit': rc, 'tail': out[-300:], 'wall_s': round(time.time() - t0), 'deselected_not_stable_in_BASELINE': desel[1::2]}
         env2 = {'NUMQI_SRC': os.path.join(scratch, 'python'), 'VERIF_EVIDENCE_DIR': os.path.join(scratch, 'evidence'), 'VERIF_REPLAY_DIR': os.path.join(scratch, 'replay')}
         tiers = [a.tier]
         for tier in tiers:
